@@ -419,8 +419,22 @@ Definition feature_checks (sc : schema) (fl : file) (m : message) (ft : feature)
   | FUnwrap => unwrap_checks sc fl m
   end.
 
+(* the codec emitters add methods MarshalJSON / UnmarshalJSON to *T; protoc-gen-go does not reserve
+   those names, so a field whose Go name is one of them (marshal_j_s_o_n) collides with the method.
+   empty_behavior without a NULL field emits MarshalJSON only (httpgen/empty_behavior.go:202-220). *)
+Definition emits_unmarshal (p : plugin) (sc : schema) (fl : file) (m : message) : bool :=
+  existsb (fun ft => match ft with
+                     | FEmpty => existsb (fun f => match f_empty f with Some EBNull => true | _ => false end) (m_fields m)
+                     | _ => true
+                     end) (emitted_features p sc fl m).
+Definition codec_method_clash (p : plugin) (sc : schema) (fl : file) (m : message) : bool :=
+  let names := go_field_names (m_fields m) in
+  (match emitted_features p sc fl m with [] => false | _ => true end && mem_str (s "MarshalJSON") names) ||
+  (emits_unmarshal p sc fl m && mem_str (s "UnmarshalJSON") names).
+
 Definition msg_checks (p : plugin) (sc : schema) (fl : file) (m : message) : list check :=
   mk (nodup_strb (marshal_methods p sc fl m)) cls_redeclared ::
+  mk (negb (codec_method_clash p sc fl m)) cls_redeclared ::
   flat_map (fun ft => if plugin_emits p fl ft then feature_checks sc fl m ft else []) all_features.
 
 (* ---- enum_value lookup tables: httpgen/enum_encoding.go:109-145 ----------------------------- *)
@@ -493,9 +507,24 @@ Definition md_go (md : method) : str := go_camel (md_name md).
 
 (* package-level identifiers derived from the schema.  One marker per file stands for the fixed
    declarations of the per-file binding/config (server) and constants (client) files. *)
+(* the package-level names the per-file helper files declare whatever the schema says
+   (<file>_http_binding.pb.go, <file>_http_config.pb.go; <file>_client.pb.go): a message, enum or
+   derived name equal to one of them is a redeclaration *)
+Definition http_fixed_decls : list str :=
+  map s ["BinaryContentType"; "BindingMiddleware"; "JSONContentType"; "PathParamConfig"; "ProtoContentType"; "QueryParamConfig";
+         "ValidateMessage"; "bindDataBasedOnContentType"; "bindDataFromBinaryRequest"; "bindDataFromJSONRequest"; "bindPathParams";
+         "bindQueryParams"; "bodyCtxKey"; "convertProtovalidateError"; "convertStringToFieldValue"; "defaultErrorResponse";
+         "defaultErrorStatusCode"; "filterFlags"; "genericHandler"; "getRequest"; "getValidator"; "marshalResponse"; "responseCapture";
+         "validateArrayHeader"; "validateBooleanHeader"; "validateDateFormat"; "validateDateTimeFormat"; "validateEmailFormat";
+         "validateHeaderValue"; "validateHeaders"; "validateIntegerHeader"; "validateNumberHeader"; "validateStringHeader";
+         "validateTimeFormat"; "validateUUIDFormat"; "validator"; "validatorErr"; "validatorOnce"; "writeErrorResponse";
+         "writeErrorWithHandler"; "writeProtoMessageResponse"; "writeResponseBody"; "writeValidationError"; "writeValidationErrorResponse";
+         "ErrorHandler"; "ServerOption"; "WithErrorHandler"; "WithMux"; "getConfiguration"; "getDefaultConfiguration"; "serverConfiguration"]%string.
+Definition client_fixed_decls : list str := map s ["ContentTypeJSON"; "ContentTypeProto"]%string.
+
 Definition http_decls (mock : bool) (fl : file) : list str :=
   if has_services fl then
-    s "<http_binding+config>" ::
+    s "<http_binding+config>" :: http_fixed_decls ++
     flat_map (fun sv =>
       [svc_go sv ++ s "Server"; s "Register" ++ svc_go sv ++ s "Server"; s "get" ++ svc_go sv ++ s "Headers"] ++
       (if mock then [s "Mock" ++ svc_go sv ++ s "Server"; s "NewMock" ++ svc_go sv ++ s "Server"] else []) ++
@@ -518,7 +547,7 @@ Definition helper_md_headers (sv : service) : list header :=
   first_by_fn (map (fun h => header_fn (h_name h)) (sv_headers sv)) (flat_map md_headers (sv_methods sv)).
 Definition client_decls (fl : file) : list str :=
   if has_services fl then
-    s "<client_constants>" ::
+    s "<client_constants>" :: client_fixed_decls ++
     flat_map (fun sv =>
       let S := svc_go sv in
       [S ++ s "Client"; lower_first S ++ s "Client"; S ++ s "ClientOption";
@@ -536,6 +565,17 @@ Definition pb_decls (fl : file) : list str :=
 Definition header_ident_ok (sv : service) : bool :=
   forallb (fun h => forallb is_ident_char (header_fn (h_name h))) (all_headers sv).
 
+(* httpgen generateService:211-230: inside Register<Svc>Server every method gets a local
+   `<lowerFirst(M)>Handler := BindingMiddleware[..](genericHandler(server.M, ..), ..)`.  For a method
+   named Generic the local is called genericHandler and shadows the helper for every LATER method of
+   the service: `cannot call non-function genericHandler`. *)
+Fixpoint generic_shadows (ms : list method) : bool :=
+  match ms with
+  | [] => false
+  | m :: r => (str_eqb (md_go m) (s "Generic") && match r with [] => false | _ => true end) || generic_shadows r
+  end.
+Definition service_checks (sv : service) : list check := [mk (negb (generic_shadows (sv_methods sv))) cls_type].
+
 (* imports of the per-file service files that only RPC methods use: httpgen generateHTTPFile
    ("context"), clientgen writeImports ("context", "io") *)
 Definition file_imports_used (fl : file) : bool :=
@@ -551,7 +591,8 @@ Definition file_checks (p : plugin) (sc : schema) (fl : file) : list check :=
   flat_map (msg_checks p sc fl) (fl_messages fl) ++
   flat_map (enum_checks p fl) (fl_enums fl) ++
   match p with
-  | PHttp => flat_map error_impl_checks (fl_messages fl) ++ [mk (unwrap_file_imports_used sc fl) cls_unused]
+  | PHttp => flat_map error_impl_checks (fl_messages fl) ++ [mk (unwrap_file_imports_used sc fl) cls_unused] ++
+             flat_map service_checks (fl_services fl)
   | PClient => flat_map (client_method_checks sc) (methods_of fl)
   end ++
   [mk (file_imports_used fl) cls_unused].
@@ -615,8 +656,25 @@ Definition ts_client_consts (sc : schema) (md : method) : list str :=
                                | Some m => match query_fields_of m with [] => [] | _ => [s "params"] end
                                | None => [] end) ++
   [s "url"; s "headers"; s "resp"; s "body"].
+(* tscommon.HeaderNameToPropertyName: strip "X-", split on '-', lower-case the first part, capitalise
+   the others; the result is printed as an interface member and as `options?.<prop>` *)
+Definition cap_lower (x : str) : str := match x with [] => [] | c :: r => to_upper c :: lower_str r end.
+Definition ts_header_prop (h : str) : str :=
+  match split_on "-"%char (trim_prefix (s "X-") h) with
+  | [] => []
+  | p :: r => lower_str p ++ List.concat (map cap_lower r)
+  end.
+Definition ts_ident_ok (x : str) : bool :=
+  match x with
+  | [] => false
+  | c :: _ => negb (is_digit c) && forallb (fun d => is_ident_char d || Ascii.eqb d "$"%char) x
+  end.
+(* class members are `async <lowerFirst(Method)>(..)`: reserved words are fine as member names, but a
+   member called constructor IS the constructor ("Constructor can't be an async function") *)
+Definition ts_member_ok (md : method) : bool := negb (str_eqb (lower_first (md_go md)) (s "constructor")).
 Definition ts_client_loads (sc : schema) (fl : file) : bool :=
-  forallb (fun md => nodup_strb (ts_client_consts sc md)) (methods_of fl).
+  forallb (fun md => nodup_strb (ts_client_consts sc md) && ts_member_ok md) (methods_of fl) &&
+  forallb (fun sv => forallb (fun h => ts_ident_ok (ts_header_prop (h_name h))) (all_headers sv)) (fl_services fl).
 Definition ts_loads (sc : schema) : bool :=
   forallb (fun fl => ts_server_loads sc fl && ts_client_loads sc fl) (gen_files sc).
 
@@ -698,6 +756,7 @@ Definition feature_tags (sc : schema) (fl : file) (m : message) (ft : feature) :
 
 Definition msg_tags (p : plugin) (sc : schema) (fl : file) (m : message) : list str :=
   tag_if (Nat.ltb 1 (List.length (emitted_features p sc fl m))) "two-marshaljson-features" ++
+  tag_if (codec_method_clash p sc fl m) "field-named-like-codec-method" ++
   flat_map (fun ft => if plugin_emits p fl ft then feature_tags sc fl m ft else []) all_features.
 
 Definition enum_tags (p : plugin) (fl : file) (e : enum) : list str :=
@@ -740,6 +799,7 @@ Definition file_tags (p : plugin) (sc : schema) (fl : file) : list str :=
   | PHttp => flat_map (fun m => tag_if (is_error_msg m && mem_str (s "Error") (go_field_names (m_fields m)))
                                        "error-message-with-error-field") (fl_messages fl)
                        ++ tag_if (negb (unwrap_file_imports_used sc fl)) "unwrap-file-unused-protojson"
+                       ++ tag_if (existsb (fun sv => generic_shadows (sv_methods sv)) (fl_services fl)) "method-named-generic"
   | PClient => flat_map (client_method_tags sc) (methods_of fl)
   end ++
   tag_if (negb (file_imports_used fl)) "service-without-methods".
@@ -763,8 +823,12 @@ Definition go_tags (ps : subset) (sc : schema) : list str :=
   decl_tags ps sc ++
   flat_map (fun p => flat_map (file_tags p sc) (gen_files sc)) (subset_plugins ps).
 
-(* no TypeScript defect class is left: ts_loads holds for every schema (proofs/EmitFacts.v ts_loads_always) *)
-Definition ts_tags (sc : schema) : list str := tag_if (negb (ts_loads sc)) "ts-const-redeclared".
+(* the TS server loads for every schema (proofs/EmitFacts.v ts_server_loads_always); the client has two
+   name-driven failures *)
+Definition ts_tags (sc : schema) : list str :=
+  tag_if (existsb (fun fl => existsb (fun md => negb (ts_member_ok md)) (methods_of fl)) (gen_files sc)) "ts-client-method-named-constructor" ++
+  tag_if (existsb (fun fl => existsb (fun sv => existsb (fun h => negb (ts_ident_ok (ts_header_prop (h_name h)))) (all_headers sv)) (fl_services fl)) (gen_files sc))
+         "ts-client-header-property-not-identifier".
 
 Fixpoint dedup (l : list str) : list str :=
   match l with [] => [] | x :: r => if mem_str x r then dedup r else x :: dedup r end.
@@ -795,10 +859,11 @@ Definition failing_classes (sc : schema) (ps : subset) : list str :=
   | [] => sort_strs (dedup (map ck_class (filter (fun c => negb (ck_ok c)) (vet_checks cs))))
   | _ =>
       (* after a redeclaration the compiler reports follow-on type / selector errors at the uses of
-         the clashing name: those two classes are not compared once "redeclared" is present *)
+         the clashing name (and "declared and not used" for values only passed to it): those classes
+         are not compared once "redeclared" is present *)
       let cl := dedup (map ck_class bad) in
       sort_strs (if mem_str cls_redeclared cl
-                 then filter (fun c => negb (str_eqb c cls_type || str_eqb c cls_selector)) cl else cl)
+                 then filter (fun c => negb (str_eqb c cls_type || str_eqb c cls_selector || str_eqb c cls_unused)) cl else cl)
   end.
 
 Definition subset_json (sc : schema) (ps : subset) : json :=
